@@ -10,6 +10,7 @@ import (
 	"runtime"
 	"strings"
 	"sync"
+	"sync/atomic"
 	"testing"
 	"testing/synctest"
 	"time"
@@ -46,15 +47,28 @@ type c18Input struct {
 	HoldSite    string `json:"holdSite"`    // "hold-close": the holdAtCall-th call at this site stays in flight for holdNs (ignoring its
 	HoldAtCall  int    `json:"holdAtCall"`  // context) and then returns normally; Close is issued closeAt ns after it was entered
 	HoldNs      int64  `json:"holdNs"`
-	Work        int    `json:"work"`       // log payloads per tick (drives pipeline + post-processing)
-	Ineligible  bool   `json:"ineligible"` // pipeline answers "ineligible" (drives the state updater)
-	LatencyNs   int64  `json:"latencyNs"`  // virtual latency of one pipeline call
-	HonorCtx    bool   `json:"honorCtx"`   // pipeline returns early when its context is cancelled
+	Shape       string `json:"shape"`      // pipeline RESULT shape ("" = well-behaved echo; see c18Shapes)
+	RepeatWork  bool   `json:"repeatWork"` // the log provider offers the same work ids on every tick (new check block hash each time)
+	Rounds      bool   `json:"rounds"`     // the harness plays libocr: one Observation per second with a previous outcome that surfaces fresh
+	// proposals (fills the proposal queue for the final flows), and the recovery provider hands out a payload per tick
+	Runner     *c18RunnerCfg `json:"runner,omitempty"` // RunnerConfig handed to the public factory (nil = the usual one)
+	Offchain   string        `json:"offchain"`         // off-chain config JSON of the instance under test ("" = `{}`)
+	Work       int           `json:"work"`             // log payloads per tick (drives pipeline + post-processing)
+	Ineligible bool          `json:"ineligible"`       // pipeline answers "ineligible" (drives the state updater)
+	LatencyNs  int64         `json:"latencyNs"`        // virtual latency of one pipeline call
+	HonorCtx   bool          `json:"honorCtx"`         // pipeline returns early when its context is cancelled
 	// constants of the code under test, recorded so that the Spec needs no second source
 	CoolDownNs int64 `json:"coolDownNs"`
 	IntervalNs int64 `json:"intervalNs"` // tick interval of the flow that owns PanicSite
 	Services   int   `json:"services"`   // recoverers per plugin
 	AuxMax     int   `json:"auxMax"`     // helper goroutines the services of one plugin own together
+}
+
+type c18RunnerCfg struct {
+	Workers       int   `json:"workers"`
+	QueueLength   int   `json:"queueLength"`
+	CacheExpireNs int64 `json:"cacheExpireNs"`
+	CacheCleanNs  int64 `json:"cacheCleanNs"`
 }
 
 type c18Impl struct {
@@ -80,8 +94,13 @@ type c18Impl struct {
 	BubbleEnded     bool           `json:"bubbleEnded"`          // every goroutine of the bubble ended and the child exited 0
 	Exit            string         `json:"exit"`                 // how the child ended: ok | exit:N | timeout
 	WallMs          int64          `json:"wallMs"`               // real time the child took (diagnostic only)
+	Crashed         string         `json:"crashed"`              // the process was terminated by a panic / fatal error nobody injected (first line)
+	Hung            string         `json:"hung"`                 // the child made no progress for 15 real seconds (e.g. goroutines blocked on a mutex stop the virtual clock)
 	ClosePanic      string         `json:"closePanic"`           // the value Close panicked with ("" = it returned)
 	FirstClose      map[string]int `json:"firstClose"`           // factory reuse: close errors of the first instance ("panic" included)
+	RoundsDone      int            `json:"roundsDone"`           // foreground Observation calls that returned
+	RoundsBlocked   int            `json:"roundsBlocked"`        // … that had not returned 5 virtual seconds later (the open plugin hangs)
+	RoundErrs       int            `json:"roundErrs"`            // … that returned an error
 	Progress        int            `json:"progress"`             // check-pipeline calls of the instance under test that completed before its Close
 	Trace           []c18Ev        `json:"trace,omitempty"`      // hook events of every recoverer, in log order (c18_trace_test.go)
 	TraceKinds      []string       `json:"traceKinds,omitempty"` // service kind per recoverer
@@ -152,6 +171,30 @@ func c18Fill(in c18Input) c18Input {
 	if in.PanicSite == c18SitePost {
 		in.Ineligible = true
 	}
+	if !in.HonorCtx && in.LatencyNs > 0 {
+		// a pipeline that ignores cancellation must stay below the job arrival rate (one batch of <= 10 payloads per job, one
+		// tick per second), or the backlog it builds outlives any Close: that is overload, not a Close defect
+		workers := int64(4)
+		if in.Runner != nil {
+			workers = int64(in.Runner.Workers)
+		}
+		jobs := int64((in.Work + 9) / 10)
+		if in.Rounds {
+			jobs += 3 // the final flows and the recovery proposal flow check payloads too
+		}
+		if jobs*in.LatencyNs*4 > 3*workers*int64(time.Second) {
+			in.HonorCtx = true
+		}
+	}
+	if strings.HasPrefix(in.PanicSite, "typeGetter@") {
+		in.Rounds = true // the proposal queue / metadata store / coordinator only consult the getter when they hold proposals
+		if in.PanicSite == c18SiteTGCoord {
+			in.RepeatWork = true // … the coordinator only for work it has seen a report and a transmit event for
+		}
+	}
+	if in.Family == "v2" {
+		in.Rounds, in.Shape, in.RepeatWork, in.Runner = false, "", false, nil
+	}
 	if in.PanicSite != "" {
 		if in.Work == 0 && in.Family != "v2" {
 			in.Work = 1 // every panic case also asks: does a later pipeline call still complete?
@@ -195,6 +238,52 @@ func c18Case(t *testing.T, in c18Input, ck func(c18Impl)) {
 	}
 	pr := node.probe
 	impl.FirstClose = node.firstClose
+	// the foreground: libocr's rounds on the open instance, one Observation per second (off the tick grid)
+	var rounds [3]atomic.Int64 // done, blocked, errors
+	stopRounds, roundsEnded := make(chan struct{}), make(chan struct{})
+	if in.Rounds && node.round != nil {
+		go func() {
+			defer close(roundsEnded)
+			wait := 537 * time.Millisecond
+			for seq := uint64(1); ; seq++ {
+				select {
+				case <-stopRounds:
+					return
+				case <-time.After(wait):
+				}
+				wait = time.Second
+				res := make(chan error, 1)
+				go func() {
+					defer func() {
+						if r := recover(); r != nil {
+							res <- fmt.Errorf("panic: %v", r)
+						}
+					}()
+					res <- node.round(seq)
+				}()
+				select {
+				case err := <-res:
+					rounds[0].Add(1)
+					if err != nil {
+						rounds[2].Add(1)
+					}
+				case <-time.After(5 * time.Second):
+					rounds[1].Add(1) // the call stays parked; the goroutine profile after Close shows it
+				}
+			}
+		}()
+	} else {
+		close(roundsEnded)
+	}
+	endRounds := func() {
+		select {
+		case <-stopRounds:
+		default:
+			close(stopRounds)
+		}
+		<-roundsEnded
+		impl.RoundsDone, impl.RoundsBlocked, impl.RoundErrs = int(rounds[0].Load()), int(rounds[1].Load()), int(rounds[2].Load())
+	}
 	switch in.Scenario {
 	case "hold-close":
 		impl.Phase = "created"
@@ -254,6 +343,9 @@ func c18Case(t *testing.T, in c18Input, ck func(c18Impl)) {
 			}
 			impl.PipelineDone = pr.pipelineDoneAfterLastPanic()
 		}
+	}
+	if in.Rounds {
+		endRounds() // libocr stops calling before it closes the instance
 	}
 	// no check-point (file write = blocking system call = scheduling point) between here and Close
 	impl.Progress = pr.doneCount(node.progressSite)
@@ -354,7 +446,24 @@ func TestC18Child(t *testing.T) {
 		_ = os.WriteFile(outPath+".tmp", b, 0o644)
 		_ = os.Rename(outPath+".tmp", outPath)
 	}
-	synctest.Test(t, func(t *testing.T) { c18Case(t, in, ck) })
+	// watchdog OUTSIDE the bubble: a case takes well under a second of real time; goroutines blocked on a sync.Mutex are not
+	// "durably blocked" for synctest, so a lock that is never released stops the virtual clock and the case would hang
+	var last atomic.Pointer[c18Impl]
+	ck2 := func(impl c18Impl) { last.Store(&impl); ck(impl) }
+	go func() {
+		time.Sleep(15 * time.Second)
+		impl := c18Impl{Phase: "start"}
+		if p := last.Load(); p != nil {
+			impl = *p
+		}
+		cls, det := c18Goroutines()
+		impl.Leaked, impl.LeakedDetail = cls, det
+		impl.Hung = fmt.Sprintf("no progress for 15 s of real time in phase %q; goroutines blocked on a mutex: %d", impl.Phase, c18CountStacks("sync.(*Mutex).Lock", "sync.(*RWMutex)"))
+		impl.Phase = "hung"
+		ck(impl)
+		os.Exit(5)
+	}()
+	synctest.Test(t, func(t *testing.T) { c18Case(t, in, ck2) })
 }
 
 // ---------------------------------------------------------------- parent
@@ -404,6 +513,19 @@ func c18RunChild(dir string, idx int, in c18Input) c18Impl {
 			// the process was taken down by the injected panic
 			impl.Survived = false
 			impl.Note = "process died: " + c18FirstLine(text, "panic:")
+		case exit == "exit:5":
+			// the child's own watchdog (see TestC18Child)
+			if impl.Hung == "" {
+				impl.Hung = "no progress for 15 s of real time"
+			}
+		case exit != "exit:3" && exit != "exit:4" && exit != "timeout" && (strings.Contains(text, "\npanic: ") || strings.HasPrefix(text, "panic: ") || strings.Contains(text, "fatal error: ")):
+			// the process was taken down by a panic that was not injected by the harness
+			impl.Survived = false
+			impl.Crashed = c18FirstLine(text, "panic: ")
+			if impl.Crashed == "" {
+				impl.Crashed = c18FirstLine(text, "fatal error: ")
+			}
+			impl.Note = "process died: " + impl.Crashed
 		case strings.Contains(text, "deadlock:"):
 			impl.Note = c18FirstLine(text, "deadlock:")
 		case impl.Phase != "done" && impl.Note == "":
@@ -513,6 +635,24 @@ func c18Edge() []c18Input {
 			}
 		}
 	}
+	// what the pipeline RETURNS as a fault dimension (next to its panics): every result shape, on fresh and on repeating
+	// work ids, with the foreground rounds running; the instance must survive, keep working and close clean
+	for _, shape := range c18Shapes {
+		for _, rep := range []bool{false, true} {
+			out = append(out, c18Input{Scenario: "close", CloseAtNs: 6*c18s + 137*c18ms, Work: 3, Shape: shape, RepeatWork: rep, Rounds: rep})
+			out = append(out, c18Input{Scenario: "close", CloseAtNs: 6*c18s + 137*c18ms, Work: 3, Shape: shape, RepeatWork: rep, Ineligible: true})
+		}
+	}
+	// unusual but accepted configuration values through the public factory: RunnerConfig and off-chain config at and
+	// across their thresholds (0 = "none", 1, negative, huge, overflowing time.Duration)
+	for _, rc := range c18RunnerCfgs() {
+		rc := rc
+		out = append(out, c18Input{Scenario: "close", CloseAtNs: 6*c18s + 137*c18ms, Work: 2, Rounds: true, Runner: &rc})
+	}
+	for _, oc := range c18OffchainCfgs {
+		out = append(out, c18Input{Scenario: "close", CloseAtNs: 6*c18s + 137*c18ms, Work: 2, Rounds: true, Offchain: oc})
+		out = append(out, c18Input{Scenario: "panic-close", PanicSite: c18SiteEvents, PanicAtCall: 2, PanicCount: 1, CloseAtNs: 3 * c18s, Offchain: oc})
+	}
 	// factory reuse (libocr asks the ONE factory for a new instance on every config change): everything above in its most
 	// telling variants, on a second instance — the first closed before / after the second is built, same / different
 	// config; the second must work (pipeline reached), survive faults, and its Close must stop both instances' everything
@@ -571,8 +711,51 @@ func c18Edge() []c18Input {
 	return out
 }
 
+const c18MaxI64 = int64(^uint64(0) >> 1)
+
+// RunnerConfig values: worker counts 1 / many, queue length 0 / 1, cache expiry 0 ("never") / 1 ns / negative / huge, sweep
+// interval tiny / equal to the expiry / huge.  (A sweep interval <= 0 is not generated: time.NewTicker rejects it on the
+// unchanged tree as well.)
+func c18RunnerCfgs() []c18RunnerCfg {
+	min20, s30 := int64(20*time.Minute), int64(30*time.Second)
+	return []c18RunnerCfg{
+		{1, 1, min20, s30}, {64, 0, min20, s30}, {4, 100, 0, s30}, {4, 100, 1, s30}, {4, 100, -int64(time.Second), s30},
+		{4, 100, c18MaxI64, s30}, {4, 100, c18s, c18s}, {4, 100, min20, 10 * c18ms}, {4, 100, min20, c18MaxI64}, {2, 1, 0, 10 * c18ms},
+	}
+}
+
+var c18OffchainCfgs = []string{
+	`{"performLockoutWindow":1}`, `{"performLockoutWindow":1000}`, `{"performLockoutWindow":9300000000000}`,
+	`{"performLockoutWindow":9223372036854775807}`, `{"minConfirmations":2147483647}`, `{"maxUpkeepBatchSize":1,"gasLimitPerReport":1,"gasOverheadPerUpkeep":4294967295}`,
+	`{"targetInRounds":1,"targetProbability":"1"}`, `{"targetInRounds":2147483647,"targetProbability":"0.0000001"}`,
+	`{"logProviderConfig":{"blockRate":4294967295,"logLimit":4294967295}}`, `{"samplingJobDuration":1,"mercuryLookup":true}`,
+}
+
 func c18Gen(r *Rng) c18Input {
 	in := c18GenBase(r)
+	// value-domain dimensions on top of whatever was generated (v3, cooperative children only)
+	if in.Family == "" && in.Procs <= 1 && !(in.Scenario == "close" && in.CloseAtNs == 0) {
+		if r.Chance(20) {
+			in.Shape = c18Shapes[r.Intn(len(c18Shapes))]
+			if in.Work == 0 {
+				in.Work = r.Range(1, 4)
+			}
+		}
+		if in.Work > 0 && r.Chance(30) {
+			in.RepeatWork = true
+		}
+		if r.Chance(25) {
+			in.Rounds = true
+		}
+		if r.Chance(15) {
+			rcs := c18RunnerCfgs()
+			rc := rcs[r.Intn(len(rcs))]
+			in.Runner = &rc
+		}
+		if r.Chance(15) {
+			in.Offchain = c18OffchainCfgs[r.Intn(len(c18OffchainCfgs))]
+		}
+	}
 	// factory reuse on top of whatever was generated (not for the parallel start-up children: reuse 2 needs virtual time)
 	if r.Chance(25) && in.Procs <= 1 {
 		in.Reuse = r.Range(1, 2)
